@@ -36,7 +36,16 @@ struct Case {
 
 fn strat(drain: bool, max_inputs: usize) -> impl Strategy<Value = Case> {
     let topo = Topo { max_streams: 5, fanout: false, local_derived: true, pure_ingress: true, seq_over_remote_transform: false };
-    prog(topo).prop_flat_map(move |p| {
+    prog(topo).prop_flat_map(move |mut p| {
+        // sliding count windows do not survive even a single-engine checkpoint (C19 domain): not used here
+        for st in p.streams.iter_mut() {
+            if let Op::SlideAgg { n, .. } = st.op {
+                st.op = Op::CountAgg { n, partition: false };
+                if !p.notes.contains(&"excluded:sliding-count-window(single-engine-restore-unfaithful)".to_string()) {
+                    p.notes.push("excluded:sliding-count-window(single-engine-restore-unfaithful)".into());
+                }
+            }
+        }
         let types = p.raw_types_used();
         (
             Just(p),
@@ -260,17 +269,39 @@ fn run_once(c: &Case) -> Outcome {
     // minus events the target had consumed at its own snapshot
     let mut sent_before: BTreeMap<String, i64> = BTreeMap::new();
     let mut snap_seen: BTreeMap<String, bool> = BTreeMap::new();
+    let mut recv_count: BTreeMap<String, i64> = BTreeMap::new();
     let mut recv_at_snapshot: BTreeMap<String, i64> = BTreeMap::new();
+    let mut counter_at_snapshot: BTreeMap<String, i64> = BTreeMap::new();
     for r in &trace1 {
         match r.kind {
             "snapshot" if r.n == cp_id => {
                 snap_seen.insert(r.ctx.clone(), true);
-                recv_at_snapshot.insert(r.ctx.clone(), r.m as i64);
+                recv_at_snapshot.insert(r.ctx.clone(), recv_count.get(&r.ctx).copied().unwrap_or(0));
+                counter_at_snapshot.insert(r.ctx.clone(), r.m as i64);
             }
+            "recv" => *recv_count.entry(r.ctx.clone()).or_insert(0) += 1,
             "xsend" if r.ok && !snap_seen.get(&r.ctx).copied().unwrap_or(false) => {
                 *sent_before.entry(r.peer.clone()).or_insert(0) += 1;
             }
             _ => {}
+        }
+    }
+    // the stored snapshot must describe the moment it was taken: its events_processed is the number of
+    // events the context had dequeued (the replay rule and the cut analysis both rest on it)
+    for (ctx, st) in &cp.context_states {
+        let seen_by_trace = recv_at_snapshot.get(ctx).copied();
+        if seen_by_trace != Some(st.events_processed as i64) || counter_at_snapshot.get(ctx).copied() != Some(st.events_processed as i64) {
+            return Outcome::fail(
+                "snapshot-events-processed-differs-from-events-consumed",
+                format!(
+                    "context {}: stored events_processed={}, events dequeued before its snapshot per H5 trace={:?}, counter at snapshot={:?}\n{}",
+                    ctx,
+                    st.events_processed,
+                    seen_by_trace,
+                    counter_at_snapshot.get(ctx),
+                    with_ctx
+                ),
+            );
         }
     }
     let derived_ctxs: Vec<String> = p.used_ctxs().iter().map(|c| cname(*c)).filter(|cn| !consumed.contains_key(cn)).collect();
@@ -361,13 +392,18 @@ fn run_once(c: &Case) -> Outcome {
         for (_, cons) in p.cross_edges() {
             o = o.class(format!("cross_consumer:{}", p.streams[cons].op.kind()));
         }
+        for nt in &p.notes {
+            o = o.class(nt.clone());
+        }
         o
     };
 
     if in_flight_lost > 0 {
         let vis = first_diff.is_some();
+        // the recorded finding needs work in progress at the trigger; after a full drain it is excluded by construction
+        let sig = if c.drain_before_cut { "inconsistent-cut-although-drained-before-trigger:cross-context-events-lost" } else { "inconsistent-cut:in-flight-cross-context-events-lost" };
         return classes(Outcome::fail(
-            "inconsistent-cut:in-flight-cross-context-events-lost",
+            sig,
             head(format!(
                 "{} cross-context event(s) were sent before the sender's snapshot and not yet consumed at the receiver's snapshot: they are in neither snapshot and are not re-sent by the replay\n{}",
                 in_flight_lost,
